@@ -355,10 +355,30 @@ func genC12(g *Gen) {
 		}
 		nops := 2 + r.Intn(7)
 		ops := make([]c12Op, nops)
+		listFocus := r.P(1, 4) // all operations address one list by index: removals then writes past the end
+		if listFocus {
+			n := 3 + r.Intn(4)
+			l := make([]interface{}, n)
+			for k := range l {
+				l[k] = randScalar(r)
+			}
+			init["l"] = l
+			probes[0], probes[1], probes[2] = addrT{"l", 0}, addrT{"l", n - 2}, addrT{"l", n}
+		}
 		for j := range ops {
 			a := c12RandAddr(r)
+			if listFocus {
+				a = addrT{"l", r.Intn(8)}
+				if r.P(1, 3) {
+					a.idx = r.Intn(3)
+				}
+			}
 			op := c12Op{Name: a.name, Idx: a.idx}
-			switch k := r.Intn(10); {
+			k := r.Intn(10)
+			if listFocus {
+				k = []int{0, 0, 0, 5, 5, 5, 5, 0, 5, 0}[k]
+			}
+			switch {
 			case k < 5:
 				op.Kind = "set"
 				op.Val = randScalar(r)
